@@ -44,6 +44,8 @@ void leak(const char *id) {
 #define CT_RUN2(call) { call; ct_mode = 0; }
 #define CT_EQUAL (ct_n == ct_n1 && ct_t1 == ct_t2 && !ct_ovf)
 #define CT_SAME(text) __CPROVER_assert(CT_EQUAL, text)
+/* the usual pair: same public arguments, independent secret arguments */
+#define CT2(text, call1, call2) CT_RUN1(call1) CT_RUN2(call2) CT_SAME(text)
 
 static int ct_canary_fn(int x) { int r = 0; if (x) { r = 1; } return r; }
 #define CT_CANARY() { INPUT(int, ct_cx); INPUT(int, ct_cy); \
